@@ -168,7 +168,7 @@ PROPS = {
         "always_search": True,
         "bounded_search": [{"obligation": "replay/c10#single_fault_enumeration",
                             "bound": "one fixed two-epoch history ([(a,a1),(b,b1)] then [(a,a2),(c,c1)]); the second publish repeated once per database operation it performs with exactly that "
-                                     "operation failing, followed by the same batch again or by a different batch [(b,b2),(d,d1)]; with and without the object cache; both hashing configurations; in-memory database"}],
+                                     "operation failing, followed by the same batch again or by a different batch [(b,b2),(d,d1)]; with and without the object cache; both hashing configurations; in-memory database; plus: PARALLEL insertion of 24-label batches, every single fault of the second publish, everything the call started is given the chance to run, then a different batch (no task may outlive a failed publish)"}],
         "scope": "partial. Deductive part (the transactional tail of Directory::publish, from the no-change early return to the end, verified as two segments of the real text): an epoch other than the "
                  "current one is announced only if commit_transaction returned Ok, and then it is current+1; every error exit taken after begin_transaction is preceded by rollback_transaction "
                  "(failed insertion, failed root-hash computation, failed commit); once the commit has been accepted nothing that can fail is left - the call returns Ok(next epoch); a named child whose read fails with anything but NotFound surfaces as an error through get_from_storage and get_child_node (never as 'no child', which the hashing would treat as an empty subtree). "
